@@ -324,3 +324,27 @@ FAMILIES2 = [fam_shadow, fam_handover, fam_kwonly_shadow, fam_global_nonlocal, f
 def program2(r):
     fam = r.choice(FAMILIES2)
     return fam(r) + HARNESS, fam.__name__
+
+
+# ------------------------------------------------------------------------------------------- third wave (own seeds again)
+
+def fam_existing_generated_name(r):
+    old = 10 ** 21 + r.randint(100, 199)
+    new = 3 * 10 ** 22 + r.randint(0, 99)
+    if r.random() < 0.5:
+        body = "\n".join(f"    out.append(({new} % {i + 2}, PYREFACT_OVERUSED_CONSTANT_0 % {i + 3}))" for i in range(6))
+        return f"PYREFACT_OVERUSED_CONSTANT_0 = {old}\n\n\ndef f(x, y):\n    out = []\n{body}\n    return out[x % 6]\n"
+    body = "\n".join(f"print('{chr(97 + i)}', {new} % {i + 2}, PYREFACT_OVERUSED_CONSTANT_0 % {i + 3})" for i in range(6))
+    return f"PYREFACT_OVERUSED_CONSTANT_0 = {old}\n{body}\n\n\ndef f(x, y):\n    return x + y\n"
+
+
+def fam_existing_var_names(r):
+    return ("var_1 = 5\n\n\ndef f(x, y):\n    if x > 1:\n        print('a', x + 1, var_1)\n        return x * 2 + y\n    else:\n        print('a', y + 1, var_1)\n        return y * 2 + x\n")
+
+
+FAMILIES3 = [fam_existing_generated_name, fam_existing_var_names]
+
+
+def program3(r):
+    fam = r.choice(FAMILIES3)
+    return fam(r) + HARNESS, fam.__name__
